@@ -597,3 +597,11 @@ func Unknown(ds []Diff) []Diff {
 	}
 	return out
 }
+
+// RealSnapVia reads the snapshot of repo through another handler (e.g. a server reopened on the same directory).
+func (w *World) RealSnapVia(h http.Handler, repo string) Snap {
+	old := w.H
+	w.H = h
+	defer func() { w.H = old }()
+	return w.RealSnap(repo)
+}
